@@ -101,9 +101,10 @@ theorem othersSame_settle (c : Conn) (tag : String) (sid : Nat) (err : Option Er
 than the one registered for that stream exactly as it was — status, fields, body, result -/
 theorem no_cross_delivery (c : Conn) (f : Frame.Frame) (tag : String)
     (hq : lookupA c.reqQueued f.stream = some tag) : OthersSame tag c (dispatch c f).1 := by
-  simp only [dispatch, hq]
+  obtain ⟨skd, skb, ske, hsk⟩ := skipHeaders_shape c f
+  simp only [dispatch, hq, hsk]
   split
-  · exact OthersSame.refl _ _
+  · exact OthersSame.of_reqs rfl
   · rename_i r hr
     split
     · exact OthersSame.of_reqs rfl
@@ -321,19 +322,42 @@ def C02_full : Prop :=
     getReq (dispatch (dispatch c (hdrFrame sid es false (block.take k))).1 (contFrame sid true (block.drop k))).1 tag =
     getReq (dispatch c (hdrFrame sid es true block)).1 tag
 
+/-- a frame for a stream nobody waits on, or whose request was taken back, changes no request -/
+theorem dispatch_gone_reqs (c : Conn) (f : Frame.Frame)
+    (h : lookupA c.reqQueued f.stream = none ∨
+      ∃ tag, lookupA c.reqQueued f.stream = some tag ∧
+        (getReq c tag = none ∨ ∃ r, getReq c tag = some r ∧ r.done = true)) :
+    (dispatch c f).1.reqs = c.reqs ∧
+    ((dispatch c f).1.reqQueued = c.reqQueued ∨ (dispatch c f).1.reqQueued = eraseA c.reqQueued f.stream) := by
+  obtain ⟨skd, skb, ske, hsk⟩ := skipHeaders_shape c f
+  rcases h with hq | ⟨tag, hq, hn | ⟨r, hr, hd⟩⟩
+  · simp [dispatch, hq, hsk]
+  · simp [dispatch, hq, hn, hsk]
+  · simp [dispatch, hq, hr, hd, hsk]
+
 theorem C02_full_holds : C02_full := by
   intro c sid tag block k es h0 hq _
   have hs1 : ∀ eh frag, (hdrFrame sid es eh frag).stream = sid := fun _ _ => rfl
   have hs2 : ∀ eh frag, (contFrame sid eh frag).stream = sid := fun _ _ => rfl
+  have gone : (getReq c tag = none ∨ ∃ r, getReq c tag = some r ∧ r.done = true) →
+      getReq (dispatch (dispatch c (hdrFrame sid es false (block.take k))).1 (contFrame sid true (block.drop k))).1 tag =
+      getReq (dispatch c (hdrFrame sid es true block)).1 tag := by
+    intro hg
+    have g1 := dispatch_gone_reqs c (hdrFrame sid es false (block.take k)) (.inr ⟨tag, by rw [hs1]; exact hq, hg⟩)
+    have g3 := dispatch_gone_reqs c (hdrFrame sid es true block) (.inr ⟨tag, by rw [hs1]; exact hq, hg⟩)
+    have hgr : ∀ c' : Conn, c'.reqs = c.reqs → getReq c' tag = getReq c tag := fun c' e => by simp only [getReq, e]
+    have g2 : (dispatch (dispatch c (hdrFrame sid es false (block.take k))).1 (contFrame sid true (block.drop k))).1.reqs = c.reqs := by
+      rcases g1.2 with e | e
+      · refine (dispatch_gone_reqs _ _ (.inr ⟨tag, by rw [hs2, e]; exact hq, ?_⟩)).1.trans g1.1
+        rw [hgr _ g1.1]; exact hg
+      · refine (dispatch_gone_reqs _ _ (.inl ?_)).1.trans g1.1
+        rw [hs2, e, hs1]; exact lookupA_eraseA _ _
+    rw [hgr _ g2, hgr _ g3.1]
   cases hr : getReq c tag with
-  | none => simp [dispatch, hs1, hs2, hq, hr]
+  | none => exact gone (.inl hr)
   | some r =>
     cases hd : r.done with
-    | true =>
-      have e : ∀ f : Frame.Frame, f.stream = sid → dispatch c f = ({ c with reqQueued := eraseA c.reqQueued sid }, false) := by
-        intro f hf; simp [dispatch, hf, hq, hr, hd]
-      rw [e _ (hs1 _ _), e _ (hs1 _ _)]
-      simp only [dispatch, hs2, lookupA_eraseA]
+    | true => exact gone (.inr ⟨r, hr, hd⟩)
     | false =>
       have h : Live c sid tag := ⟨hq, r, hr, hd⟩
       have := split_invariance c sid tag es (block.take k) [] (block.drop k) h0 h
